@@ -126,6 +126,9 @@ func (w *world) history(id string, check bool) {
 			b = &refBlockT{}
 			for i := 0; i < first; i++ {
 				h := verifLeafHash("add")
+				if i == first-1 && first >= 3 && verifParam("innerLeaf", 0) == 1 && verifChoose("inner", 0, 1) == 1 {
+					h = refParent(b.adds[0], b.adds[1]) // see refBlock: a leaf that hashes like an internal node
+				}
 				for j := range b.adds {
 					verifAssume(h != b.adds[j])
 				}
